@@ -802,6 +802,8 @@ type chainCase struct {
 	Prefill string `json:"prefill,omitempty"`
 	// the same chain over the same paths run first with this longer input (then with Records)
 	First []gen.ResultSpec `json:"first,omitempty"`
+	// the last step writes to a named pipe that is drained slowly (a consumer that falls behind)
+	SlowLast bool `json:"slow_last,omitempty"`
 }
 
 func allChains(maxLen int) [][]string {
@@ -833,6 +835,8 @@ func runChains(c *run.Ctx, s *kit.Summary, cases []chainCase) {
 		file string
 	}
 	var steps []step
+	sinks := map[string]<-chan []byte{}
+	sinkCancel := make(chan struct{})
 	for ci, cc := range cases {
 		prev := filepath.Join(dir, fmt.Sprintf("c%d_0.%s", ci, cc.Start))
 		if err := os.WriteFile(prev, encodeAll(cc.Start, toResults(cc.Records)), 0o644); err != nil {
@@ -872,6 +876,13 @@ func runChains(c *run.Ctx, s *kit.Summary, cases []chainCase) {
 		}
 		for k, to := range cc.Chain {
 			out := filepath.Join(dir, fmt.Sprintf("c%d_%d.%s", ci, k+1, to))
+			if cc.SlowLast && k == len(cc.Chain)-1 {
+				os.Remove(out)
+				if ch, err := gen.SlowSink(out, 4096, 300*time.Microsecond, sinkCancel); err == nil {
+					sinks[out] = ch
+					s.Count("chain:last_step_to_slow_consumer")
+				}
+			}
 			ops = append(ops, "encode "+kit.HexS(to)+" "+kit.HexS(out)+" "+kit.HexS(prev))
 			steps = append(steps, step{ci, k, out})
 			prev = out
@@ -881,6 +892,12 @@ func runChains(c *run.Ctx, s *kit.Summary, cases []chainCase) {
 	if err != nil {
 		s.Diverge("chains", "(vegeta-verif failure)", "", err.Error())
 		return
+	}
+	close(sinkCancel)
+	for path, ch := range sinks {
+		data := <-ch
+		os.Remove(path)
+		os.WriteFile(path, data, 0o644)
 	}
 	if hungAt >= 0 {
 		if ci := steps[hungAt].ci; ci >= 0 {
@@ -1111,6 +1128,25 @@ func runC08(c *run.Ctx, s *kit.Summary) {
 		s.Count("chain:with_unencodable_record")
 	}
 	runChains(c, s, far)
+	// long inputs (hundreds to thousands of small records, far beyond any batch of 64/128 results), every
+	// target, the last step also into a consumer that falls behind
+	var long []chainCase
+	for k, ch := range [][]string{{"gob"}, {"csv"}, {"json"}, {"json", "gob"}, {"gob", "csv"}, {"csv", "json"}} {
+		n := c.N(400, 1000) + r.Pick(300)
+		if k%3 == 0 {
+			n = c.N(1500, 5000) + r.Pick(500)
+		}
+		rs := make([]gen.ResultSpec, n)
+		for i := range rs {
+			rs[i] = gen.InterResult(r, uint64(i), -1)
+			if len(rs[i].Body) > 40 {
+				rs[i].Body = rs[i].Body[:40]
+			}
+		}
+		long = append(long, chainCase{Records: rs, Start: encodings[(k+1)%3], Chain: ch, SlowLast: k%2 == 0})
+		s.Count(fmt.Sprintf("chain:long_input_records>=%d", n/100*100))
+	}
+	runChains(c, s, long)
 	phase("chains")
 	runCLIGarbage(c, s, r)
 	phase("cli-garbage")
